@@ -48,10 +48,14 @@ tvars == <<S, l, X, out>>
 Empty == [plan |-> <<>>, lru |-> <<>>, ent |-> <<>>, fl |-> <<>>, ex |-> <<>>, known |-> <<>>, gen |-> <<>>,
           cnt |-> <<>>, nprep |-> <<>>, nrem |-> <<>>, forgets |-> 0, fails |-> 0]
 InitEx == [pc |-> "lookup", idx |-> 1, cur |-> 0, got |-> <<>>, waited |-> {}, unprep |-> NoId, res |-> "none",
-           nframes |-> 0, frame |-> NoFrame, started |-> FALSE]
+           nframes |-> 0, frame |-> NoFrame, started |-> FALSE, rep |-> 0]
 X0 == [scn |-> 0, cap |-> 1, pend |-> <<>>, sends |-> <<>>, lost |-> FALSE, ordOK |-> TRUE, over |-> NoKey,
-       expect |-> NoKey, expId |-> NoId, canc |-> {}, stamp |-> 0, ust |-> <<>>, unp |-> <<>>, kinds |-> <<>>]
+       expect |-> NoKey, expId |-> NoId, canc |-> {}, stamp |-> 0, ust |-> <<>>, unp |-> <<>>, unpn |-> <<>>, kinds |-> <<>>]
 NoUnp == [id |-> NoId, cnt |-> 0]
+\* One forgotten statement can legitimately cost an execution TWO UNPREPARED answers in a row (see ExecV), so
+\* "the driver prepares again and the query still succeeds" demands at least two re-preparations in a row.  A
+\* driver that bounds its retries (conn.go maxReprepare) may hand UNPREPARED to the caller only after more.
+MinReprepare == 2
 Quiet == [v |-> "", d |-> "", line |-> 0, scn |-> 0, e |-> 0, key |-> NoKey]
 
 TInit == S = Empty /\ l = 1 /\ X = X0 /\ out = Quiet
@@ -256,6 +260,7 @@ OnExecReply(ev, T, Y) ==
       Y1 == [Y EXCEPT !.unp = Put(@, e, IF ev.kind # "unprepared" THEN NoUnp
                                         ELSE IF old.id = ev.id THEN [id |-> ev.id, cnt |-> old.cnt + 1]
                                         ELSE [id |-> ev.id, cnt |-> 1]),
+                      !.unpn = Put(@, e, IF ev.kind = "unprepared" THEN Get(Y.unpn, e, 0) + 1 ELSE 0),
                       !.ust = Put(@, e, Y.stamp)]
   IN IF e = 0 \/ ~Has(T.ex, e) \/ Y.lost THEN Res(T, Y1, "", "")
      ELSE IF ev.kind = "error" THEN Res(T, Y1, "", "livelock-guard-of-the-node")
@@ -274,7 +279,8 @@ Finish(T, e, res) == [T EXCEPT !.ex[e].pc = "done", !.ex[e].res = res]
 
 OnEnd(ev, T, Y) ==
   LET e == ev.e
-      direct == CASE ev.cls = "unprepared" -> "UnpreparedNotRecovered"
+      gaveUp == ev.cls = "unprepared" /\ Get(Y.unpn, e, 0) > MinReprepare
+      direct == CASE ev.cls = "unprepared" /\ ~gaveUp -> "UnpreparedNotRecovered"
                   [] ev.cls = "panic" -> "Panic"
                   [] OTHER -> ""
   IN
@@ -301,6 +307,7 @@ OnEnd(ev, T, Y) ==
          ELSE Res(Finish(T1, e, "err_arity"), Y, direct, "arity-error-unexpected")
     [] ev.cls = "ctx" ->
          Res(Finish(T, e, "err_ctx"), Y, direct, IF e \in Y.canc THEN "" ELSE "context-error-without-cancel")
+    [] gaveUp -> Res(Finish(T, e, "err_unprepared"), Y, direct, "")   \* bounded retries exhausted
     [] OTHER -> Res(Finish(T, e, "err_ctx"), Y, direct, "executor-error-" \o ev.cls)
 
 OnHang(ev, T, Y) ==
